@@ -4,10 +4,13 @@ pub mod c02;
 pub mod c03;
 pub mod c04;
 pub mod c05;
+pub mod c06;
 pub mod c07;
 pub mod c12;
 pub mod c14;
 pub mod c15;
+pub mod c16;
+pub mod c17;
 pub mod c18;
 pub mod c19;
 pub mod c20;
@@ -21,10 +24,13 @@ pub fn lookup(id: &str) -> Option<(&'static str, fn(&Engine))> {
         "C03" => ("C03", c03::run),
         "C04" => ("C04", c04::run_prop),
         "C05" => ("C05", c05::run),
+        "C06" => ("C06", c06::run),
         "C07" => ("C07", c07::run),
         "C12" => ("C12", c12::run),
         "C14" => ("C14", c14::run),
         "C15" => ("C15", c15::run),
+        "C16" => ("C16", c16::run),
+        "C17" => ("C17", c17::run),
         "C18" => ("C18", c18::run),
         "C19" => ("C19", c19::run),
         "C20" => ("C20", c20::run),
@@ -32,7 +38,11 @@ pub fn lookup(id: &str) -> Option<(&'static str, fn(&Engine))> {
     })
 }
 
-/// Child-process entry points (none yet).
-pub fn child_mode(_args: &[String]) -> Option<i32> {
-    None
+/// Child-process entry points.
+pub fn child_mode(args: &[String]) -> Option<i32> {
+    match args.get(1).map(|s| s.as_str()) {
+        Some("--c06-child") if args.len() >= 4 => Some(c06::child_main(&args[2], &args[3])),
+        Some("--c17-child") if args.len() >= 5 => Some(c17::child_main(&args[2], &args[3], &args[4])),
+        _ => None,
+    }
 }
